@@ -1,5 +1,7 @@
 import CoercionModel.Model.Store
 import CoercionModel.Props.C13
+import CoercionModel.Model.SkeletonsCosmos
+import CoercionModel.Generated.F11
 set_option linter.unusedSimpArgs false
 /-
   C14 — Create is all-or-nothing and unique; Delete removes exactly one plan.
@@ -88,5 +90,11 @@ def bad : SPlan := ⟨2, [⟨3, 0, 0, true⟩, ⟨4, 0, 0, false⟩, ⟨5, 0, 0,
 example : (create (create [] good).1 bad) = ([good], false) := by decide
 example : (create (create [] good).1 ⟨1, []⟩).2 = false := by decide
 example : readPlan (delete (create (create [] good).1 ⟨7, [⟨8, 0, 0, true⟩]⟩).1 7) 1 = some good := by decide
+
+set_option maxRecDepth 100000 in
+/-- CosmosDB backend: the functions that implement this property there still have the shape that was read
+    against the model (skeletons regenerated from /repo on every run, Model/SkeletonsCosmos). A static tie
+    only: the repository's fake Cosmos client cannot judge this part dynamically. -/
+theorem facts_cosmos_skeleton : Generated.F11.createDelete = SkeletonsCosmos.createDelete := by decide +kernel
 
 end Coercion.C14
